@@ -326,14 +326,19 @@ def tick_u64(num, den):
 def emulate_recorder_u64(tvlog):
     """third implementation of FileBasedTestbenchRecorder (python), arithmetic as the C++ does it.
     returns (file lines, index of the first ADV group computed with a wrapped intermediate or None)"""
-    out, first_wrap, ngroups = [], None, 0
+    out, first_wrap, first_subps, ngroups = [], None, None, 0
     new = lambda: dict(chk=[], set={}, rst={})
     phases, post = [], new()
     written, fstart, cur = R64(0), R64(0), 2
+    fstart_exact = F(0)
 
-    def flush(end):
-        nonlocal phases, written, fstart, first_wrap, ngroups
+    def flush(end, end_exact):
+        nonlocal phases, written, fstart, first_wrap, first_subps, ngroups, fstart_exact
         R64.wrapped = False
+        spacing_ps = (end_exact - fstart_exact) / (2 + len(phases)) * PS
+        if 0 < spacing_ps < 1 and first_subps is None and any(p["chk"] or p["set"] or p["rst"] for p in phases):
+            first_subps = ngroups
+        fstart_exact = end_exact
         interval = end.add(fstart, -1).divi(2 + len(phases))
         for i, p in enumerate(phases):
             if not (p["chk"] or p["set"] or p["rst"]):
@@ -358,11 +363,11 @@ def emulate_recorder_u64(tvlog):
     for l in Path(tvlog).read_text().splitlines():
         t = l.split(" ")
         if t[0] == "PowerOn":
-            written, fstart = R64(0), R64(0); phases.append(new()); cur = 2
+            written, fstart = R64(0), R64(0); phases.append(new()); cur = 2; fstart_exact = F(0)
         elif t[0] == "NewPhase":
             cur = int(t[1])
             if cur == 2:
-                flush(R64(int(t[2]), int(t[3])))
+                flush(R64(int(t[2]), int(t[3])), F(int(t[2]), int(t[3])))
                 phases[-1] = post; post = new(); phases.append(new())
         elif t[0] == "AMT":
             phases.append(new())
@@ -378,8 +383,8 @@ def emulate_recorder_u64(tvlog):
             elif any(ch in "01" for ch in raw):
                 phases[-1]["chk"].append((t[1], "".join(ch if ch in "01" else "-" for ch in raw)))
         elif t[0] == "Destroy":
-            flush(R64(int(t[1]), int(t[2])))
-    return out, first_wrap
+            flush(R64(int(t[1]), int(t[2])), F(int(t[1]), int(t[2])))
+    return out, first_wrap, first_subps
 
 
 def analyze_tv(d, cid, driver, hist):
@@ -388,7 +393,9 @@ def analyze_tv(d, cid, driver, hist):
     V.run([driver, "tv", str(d / f"{cid}.tvlog"), str(d / f"{cid}.tvmodel")], timeout=600)
     model = (d / f"{cid}.tvmodel").read_text().splitlines() if (d / f"{cid}.tvmodel").exists() else None
     mm = None
-    emu, first_wrap = emulate_recorder_u64(d / f"{cid}.tvlog")
+    emu, first_wrap, first_subps = emulate_recorder_u64(d / f"{cid}.tvlog")
+    if first_subps is not None:
+        hist["tv_cases_with_subps_phase_spacing"] += 1
     recs = parse_tv(d / f"{cid}.testvectors")
     # line number where the first group computed with a wrapped uint64 intermediate starts (None: exact run)
     wrap_line = None
@@ -434,7 +441,7 @@ def analyze_tv(d, cid, driver, hist):
             hist["tv_callback_in_DURING_deferred"] += 1
         elif t[0] == "Read":
             hist["tv_read_in_phase_%d" % ph] += 1
-    fails, known, known_wrap = [], [], []
+    fails, known, known_wrap, known_subps = [], [], [], []
     rep_lines = (d / f"{cid}.replay").read_text().splitlines() if (d / f"{cid}.replay").exists() else []
     nchk = 0
     sched = {}
@@ -461,6 +468,9 @@ def analyze_tv(d, cid, driver, hist):
                             group=[" ".join(str(x) for x in r if x is not None) for r in grecs])
                 if grp[i] == 0 and any(r[0] == "SET" for r in grecs):
                     known.append(info)
+                elif first_subps is not None and grp[i] >= first_subps and (first_wrap is None or first_subps <= first_wrap):
+                    info["first_group_with_subps_spacing"] = first_subps
+                    known_subps.append(info)
                 elif first_wrap is not None and grp[i] >= first_wrap and emu == real:
                     info["first_group_with_wrapped_uint64"] = first_wrap
                     known_wrap.append(info)
@@ -476,7 +486,7 @@ def analyze_tv(d, cid, driver, hist):
         fails.append(dict(what="RST records differ from the resets of the replayed simulation", file=rstfile, sim=rstsim))
     if not rep_lines:
         fails.append(dict(what="no replay output"))
-    return len(real) + nchk, mm, fails[:12], known, dict(checks=nchk, known_wrap=known_wrap, wrap=first_wrap is not None)
+    return len(real) + nchk, mm, fails[:12], known, dict(checks=nchk, known_wrap=known_wrap, known_subps=known_subps, wrap=first_wrap is not None)
 
 
 # ----------------------------------------------------------------------------------------------
@@ -509,11 +519,15 @@ def analyze_case(c, d, driver, tier):
     """returns dict with evaluations, model failures (tie), oracle failures (real vs independent oracle), known hits"""
     cid = c["id"]
     hist = Counter()
-    r = dict(id=cid, evals=0, tie=[], oracle=[], known=[], known_wrap=[], hist=hist, info={})
+    r = dict(id=cid, evals=0, tie=[], oracle=[], known=[], known_wrap=[], known_subps=[], known_tick=[], hist=hist, info={})
     n_cmp, of, info = oracle_vcd(d, cid, hist)
     r["evals"] += n_cmp
     r["oracle"] += [dict(f, part="vcd") for f in of]
+    r["known_tick"] += info.pop("known_tick")
+    wrap_pos, exp_ticks = info.pop("tick_wrap_pos"), info.pop("exp_ticks")
     r["info"].update(info)
+    if wrap_pos:
+        hist["vcd_cases_with_uint64_wrap_in_tick"] += 1
     if driver:
         maxticks = 40 if tier == "quick" else 200
         rc, out = V.run([driver, "vcd", str(d / f"{cid}.trace"), str(d / f"{cid}.vcd"), str(d / f"{cid}.body"), str(maxticks)], timeout=900)
@@ -524,12 +538,21 @@ def analyze_case(c, d, driver, tier):
             kv = dict(t.split("=") for t in rl[0].split()[1:])
             r["evals"] += int(kv["queries"])
             hist["reader_queries"] += int(kv["queries"])
-            if kv["mismatches"] != "0" or kv["headerbad"] != "0":
+            if (kv["mismatches"] != "0" and not wrap_pos) or kv["headerbad"] != "0":
                 r["tie"].append(dict(what="extracted reader on the real file != sampled values", summary=rl[0],
                                      first=[l for l in out.splitlines() if l.startswith(("Q ", "H "))][:4]))
             real = (d / f"{cid}.vcd").read_bytes()
             k = real.find(b"$dumpvars\n")
             realbody = real[k + len(b"$dumpvars\n"):] if k >= 0 else b""
+            if wrap_pos:
+                # the exact-arithmetic model cannot reproduce a wrapped timestamp: compare with those `#` lines put right
+                ls_, j = realbody.split(b"\n"), 0
+                for q in range(len(ls_)):
+                    if ls_[q].startswith(b"#"):
+                        if j in wrap_pos:
+                            ls_[q] = b"#%d" % exp_ticks[j]
+                        j += 1
+                realbody = b"\n".join(ls_)
             modelbody = (d / f"{cid}.body").read_bytes() if (d / f"{cid}.body").exists() else b""
             r["evals"] += realbody.count(b"\n")
             hist["body_lines_compared"] += realbody.count(b"\n")
@@ -547,6 +570,7 @@ def analyze_case(c, d, driver, tier):
             r["oracle"] += [dict(f, part="tv") for f in of2]
             r["known"] += known
             r["known_wrap"] += info2.pop("known_wrap")
+            r["known_subps"] += info2.pop("known_subps")
             r["info"].update(info2)
         else:
             # oracle only: replay verdicts
@@ -576,8 +600,6 @@ def main():
         sys.exit(0)
     rep.add_proof(res)
     known_lines, _ = V.known_findings(CID)
-    known_ok = any(k.startswith(KNOWN_TAG) for k in known_lines)
-    known_wrap_ok = any(k.startswith(KNOWN_TAG_WRAP) for k in known_lines)
 
     if TMP.exists():
         shutil.rmtree(TMP, ignore_errors=True)
@@ -602,7 +624,7 @@ def main():
             results.append((c, f.result()))
 
     hist = Counter()
-    tie_fail, oracle_fail, known_hits, known_wrap_hits = [], [], [], []
+    tie_fail, oracle_fail, known_hits, known_wrap_hits, known_subps_hits, known_tick_hits = [], [], [], [], [], []
     seen, nontriv = set(), 0
     for c, r in results:
         hist.update(r["hist"])
@@ -619,6 +641,10 @@ def main():
             known_hits.append((c, f))
         for f in r["known_wrap"]:
             known_wrap_hits.append((c, f))
+        for f in r["known_subps"]:
+            known_subps_hits.append((c, f))
+        for f in r["known_tick"]:
+            known_tick_hits.append((c, f))
     for e in exc:
         oracle_fail.append((dict(id="?"), dict(what="harness exception (the real classes threw)", text=e)))
     missing = [c for c in cases if c["id"] not in done]
@@ -662,25 +688,28 @@ def main():
                              "model output == real files")
 
     shown = Counter()
+    def known_or_fail(tag, c, f, txt):
+        if any(k.startswith(tag) for k in known_lines):
+            shown[tag] += 1
+            if shown[tag] <= 2:
+                rep.known(f"{tag} case `{case_line(c)}` " + txt)
+        else:
+            oracle_fail.append((c, dict(f, would_be_known_as=tag)))
     for c, f in known_hits:
-        txt = f"{KNOWN_TAG} case `{case_line(c)}` record {f['record']} at {f['time_ps']} ps: CHECK {f['pin']} expected {f['expected']} observed {f['observed']} (CHECK written before the SET of the same power-on phase)"
-        if known_ok:
-            shown[KNOWN_TAG] += 1
-            if shown[KNOWN_TAG] <= 2:
-                rep.known(txt)
-        else:
-            oracle_fail.append((c, f))
+        known_or_fail(KNOWN_TAG, c, f, f"record {f['record']} at {f['time_ps']} ps: CHECK {f['pin']} expected {f['expected']} observed {f['observed']} "
+                      "(CHECK written before the SET of the same power-on phase)")
     for c, f in known_wrap_hits:
-        txt = (f"{KNOWN_TAG_WRAP} case `{case_line(c)}` record {f['record']} replayed at {f['time_ps']} ps: CHECK {f['pin']} expected {f['expected']} "
-               f"observed {f['observed']} (ADV of group {f['first_group_with_wrapped_uint64']} computed with a wrapped boost::rational<uint64_t> intermediate; "
-               f"the python uint64 emulation reproduces the real file)")
-        if known_wrap_ok:
-            shown[KNOWN_TAG_WRAP] += 1
-            if shown[KNOWN_TAG_WRAP] <= 2:
-                rep.known(txt)
-        else:
-            oracle_fail.append((c, f))
-    rep.cov["known_finding_hits"] = {KNOWN_TAG: len(known_hits), KNOWN_TAG_WRAP: len(known_wrap_hits)}
+        known_or_fail(KNOWN_TAG_WRAP, c, f, f"record {f['record']} replayed at {f['time_ps']} ps: CHECK {f['pin']} expected {f['expected']} observed {f['observed']} "
+                      f"(ADV of group {f['first_group_with_wrapped_uint64']} computed with a wrapped boost::rational<uint64_t> intermediate; "
+                      "the python uint64 emulation reproduces the real file)")
+    for c, f in known_subps_hits:
+        known_or_fail(KNOWN_TAG_SUBPS, c, f, f"record {f['record']} replayed at {f['time_ps']} ps: CHECK {f['pin']} expected {f['expected']} observed {f['observed']} "
+                      f"(group {f['first_group_with_subps_spacing']} was written by a flush with less than 1 ps per phase)")
+    for c, f in known_tick_hits:
+        known_or_fail(KNOWN_TAG_TICK, c, f, f"onNewTick({f['time']}) written as {f['vcd']} instead of {f['expected']} "
+                      "(the python uint64 emulation of advanceTick wraps and reproduces the value)")
+    rep.cov["known_finding_hits"] = {KNOWN_TAG: len(known_hits), KNOWN_TAG_WRAP: len(known_wrap_hits),
+                                     KNOWN_TAG_SUBPS: len(known_subps_hits), KNOWN_TAG_TICK: len(known_tick_hits)}
 
     if oracle_fail:
         # concrete failing inputs on the real implementation (independent oracle): report the first few distinct kinds
